@@ -7,6 +7,8 @@ import AfkakProofs.Consumer.Inv2
 namespace Afkak.Proofs.Consumer
 open Afkak.Consumer Afkak.Monitor Afkak.Consts
 
+variable [EnvHyp]
+
 theorem retryFetch_keeps0 (cfg : Cfg) (a : Option Rat) (s : St) : Keeps0 s (retryFetch cfg a s) := by
   unfold Keeps0 retryFetch emit; grind
 theorem handleFetchError_keeps0 (cfg : Cfg) (f : Fail) (s : St) : Keeps0 s (handleFetchError cfg f s) := by
